@@ -24,8 +24,9 @@ RULE = ("state space = fitted models x query rows x ENVIRONMENT ANSWERS (the uni
 ASSUMPTIONS = ["predict consumes randomness only through rand/random_sample/random/uniform/choice of the RandomState it is given; a call to any "
                "other generator method marks the model 'uncontrolled' and only layer B (real seeds) is applied",
                "cells of measure zero (u exactly on a breakpoint) are not asserted"]
-CLASSES = ["thresholder", "eg_classification", "eg_classification_unsorted_weights", "eg_regression", "eg_regression_unsorted_weights", "prob_strictly_between_0_1",
-           "prob_0_or_1", "p_ignore_model", "flip_model"]
+CLASSES = ["thresholder", "eg_classification", "eg_regression", "flip_model"]
+# classes whose occurrence depends on implementation internals (reported, warned about when absent, never a hard vacuity error)
+SOFT_CLASSES = ["eg_classification_unsorted_weights", "eg_regression_unsorted_weights", "p_ignore_model", "prob_strictly_between_0_1", "prob_0_or_1"]
 DELTA = 2.0 ** -30
 
 
